@@ -61,6 +61,7 @@ class WireRun(object):
         im.start_fired, im.delivered, im.salt = [], False, 0
         im.sync_start_failures, im.sync_failed = [], []
         im.allow_foreign_timers = True
+        im.sync_policy, im.auto_events, im.ctor_raise_at, im.ctor_count = None, [], None, 0
         im.clock = GL.RecClock(im)
         im.group_id = "grp"
         self.data_reqs = []     # pending consumer requests: dict(kind, d, payloads, raw)
